@@ -45,6 +45,8 @@ func Run(tier string, seed int64, outDir string) *common.Meta {
 	runRules(meta, tier, seed, outDir)
 	runNewDeref(meta, outDir)
 	runUnlambdaTie(meta, outDir)
+	runSynthDiff(meta, outDir)
+	runGenericBool(meta, seed, outDir)
 	meta.Rule = "distinct_nontrivial = number of distinct generated expressions/programs on which the real checker emitted at least one diagnostic (each compared with the model's diagnostic text in Coq and executed differentially)"
 	return meta
 }
